@@ -12,7 +12,7 @@ sed "s#/tmp/seed2/$pid/wt#$wt#g" "$demo0" > "$demo"
 run_demo() { (cd "$wt" && PYTHONPATH="$wt" timeout 900 /venv/bin/python "$demo" >"$1" 2>&1; echo $?); }
 (cd "$wt" && git apply "$src/patch.diff") || { echo "patch does not apply"; git -C /repo worktree remove --force "$wt"; exit 2; }
 rc_with=$(run_demo "$src/confirm_demo_with.log")
-/tmp/seed/run_suite.py "$wt" > "$src/confirm_suite.log" 2>&1
+/verif/tools/run_suite.py "$wt" > "$src/confirm_suite.log" 2>&1
 reg=$(grep -o 'REGRESSIONS: [0-9]*' "$src/confirm_suite.log" | tail -1)
 (cd "$wt" && git apply -R "$src/patch.diff")
 rc_without=$(run_demo "$src/confirm_demo_without.log")
